@@ -83,7 +83,7 @@ Fixpoint lowok (p : N) (e : pexpr) : bool :=
 
 Definition tighter (o : op) (l : list op) : bool := forallb (fun q => o_prec o <? o_prec q) l.
 
-Definition leaf_arity (o : op) : bool := negb (o_nargs o =? 1) && negb (o_nargs o =? 2).
+Definition leaf_arity (o : op) : bool := o_nargs o =? 0.
 
 Fixpoint okpb (e : pexpr) : bool :=
   match e with
@@ -182,7 +182,13 @@ Fixpoint bmatch (st : list br) (ts : list tok) : bool :=
 
 Definition balanced (ts : list tok) : Prop := bmatch [] ts = true.
 
-(* a `)` that no `(` of the token list opens: it closes the implicit outer
-   bracket ConvertToPostfix wraps around the expression *)
-Definition escapes_outer (ts : list tok) : Prop :=
-  exists pre post opt, ts = pre ++ TClose BParen opt :: post /\ balanced pre.
+(* no operand directly after a complete operand, no operand directly after a
+   prefix operator unless it is parenthesised (f x, 1 2 +, + 1 2, ) f ...):
+   [pe] = the previous token completes an operand, [pp] = it is a prefix operator *)
+Fixpoint adjacent_ok (pe pp : bool) (ts : list tok) : bool :=
+  match ts with
+  | [] => true
+  | t :: r => negb (adjacency_error pe pp t) && adjacent_ok (ends_operand t) (is_prefix_op t) r
+  end.
+
+Definition no_juxtaposition (ts : list tok) : Prop := adjacent_ok false false ts = true.
